@@ -4,11 +4,13 @@
    uri, modality or caches; != is its negation; any single-element perturbation flips equality;
    .3f formatting is within half a millisecond, str(segment) within one millisecond; the text
    serialisers produce one line per track / segment and refuse exactly when a space is present.
-   rebuilding from the records produced by track iteration gives an equal object.
-   Tied by the correspondence, not proved: the from_df and to_annotation round trips (pandas is run,
-   not modelled) and the exact text of the lines (compared string by string with the Text model). Statements only. *)
+   rebuilding from the records produced by track iteration gives an equal object;
+   Timeline.to_annotation gives one '_' track per segment, labelled in timeline order, whose segment
+   set is the timeline again (so get_timeline, by C02, gives the timeline back).
+   Tied by the correspondence, not proved: the from_df round trip (pandas is run, not modelled) and
+   the exact text of the lines (compared string by string with the Text model). Statements only. *)
 From PV Require Import Model.Text Proofs.SupportP Proofs.AnnotationInvP Proofs.TextEqP Proofs.CanonicalIterP
-  Proofs.RoundTripP.
+  Proofs.RoundTripP Proofs.DictP Proofs.AnnRenameTracksP.
 
 Theorem C12_eq_compares_track_iterations : forall a b, ann_eq a b = true <-> itertracks a = itertracks b.
 Proof. exact ann_eq_spec. Qed.
@@ -59,6 +61,14 @@ Proof. exact uem_refused_iff. Qed.
 Theorem C12_uem_one_line_per_segment : forall scale u t ls, uem_lines scale u t = Some ls -> length ls = length t.
 Proof. exact uem_one_line_per_segment. Qed.
 
+Theorem C12_to_annotation_round_trip : forall eps t u m g, wf eps t -> gen_ok g (List.length t) ->
+  exists r, to_annotation eps t u m g = Some r /\ AInv eps r /\
+    (forall k s, nth_error t k = Some s -> getitem r s default_track = Some (gen_fun g k)) /\
+    (forall s tr, getitem r s tr <> None -> In s t /\ tr = default_track) /\
+    skeys (a_tracks r) = t /\
+    a_uri r = u /\ a_modality r = m.
+Proof. exact to_annotation_spec. Qed.
+
 Example C12_nonvacuous :
   let a := ann_of 0 (Some "u"%string) None [((0, 4), NStr "x", NStr "a"); ((0, 4), NInt 0, NStr "b")] in
   let b := ann_of 0 None (Some "m"%string) [((0, 4), NInt 0, NStr "b"); ((0, 4), NStr "x", NStr "a")] in
@@ -82,3 +92,4 @@ Print Assumptions C12_rttm_one_line_per_track.
 Print Assumptions C12_lab_refused_iff_space_in_label.
 Print Assumptions C12_uem_refused_iff_space_in_uri.
 Print Assumptions C12_uem_one_line_per_segment.
+Print Assumptions C12_to_annotation_round_trip.
